@@ -234,6 +234,10 @@ func (r *Runner) step(op Op) (res Result) {
 		dir := filepath.Dir(r.file(filepath.Join(r.subdir(), op.Target), op.Text))
 		_, err := h.ParseFS(template.TrustedFSFromTrustedSource(tsFromString(dir)), op.Target[:1]+"*")
 		setErr(err)
+	case "parsefszero":
+		// the zero TrustedFS (what a failed TrustedFS.Sub returns) must give an error
+		_, err := h.ParseFS(template.TrustedFS{}, "*")
+		setErr(err)
 	case "new":
 		h.New(op.Target)
 	case "exec":
@@ -303,7 +307,7 @@ func Run(h *History, watchdog time.Duration) ([]Result, *Runner) {
 // IsDef reports whether an op kind (re)defines templates.
 func IsDef(kind string) bool {
 	switch kind {
-	case "parse", "parsett", "parsefiles", "parsefilests", "parseglob", "parsefs", "new":
+	case "parse", "parsett", "parsefiles", "parsefilests", "parseglob", "parsefs", "parsefszero", "new":
 		return true
 	}
 	return false
@@ -787,7 +791,7 @@ func Gen(t *rapid.T, o Options) *History {
 			}
 			kinds := []string{"parse", "parse", "parsett", "new"}
 			if o.FileOps {
-				kinds = append(kinds, "parsefiles", "parsefilests", "parseglob", "parsefs")
+				kinds = append(kinds, "parsefiles", "parsefilests", "parseglob", "parsefs", "parsefszero")
 			}
 			op := Op{Kind: g.pick("defkind", kinds), Set: set, Via: via, Target: name, Text: `{{define "` + name + `"}}` + body + `{{end}}`}
 			if op.Kind != "parse" && op.Kind != "parsett" && (name == g.h.RootName || name == handleName[set]) {
